@@ -33,6 +33,7 @@ var c19Lines = []string{
 	"##!> define x (", "##!> define y {{x}}", "##!> define x a{{x}}", "##!> define x {{y}}b", "##!> include x", "##!> include-except x x", "##!> include x -- x y", "##!> include x -- a", "##! c", "",
 	"'a", "a@", "a~", `a\@`, "@", "\t", "##!> include inc",
 	"\xef", "\xef\xbb", "\xef\xbb\xbfa", "\xc3",
+	"##!=> \x0b", "##!=< \u00a0", "##!=>\u0085", "##!> include \u00a0", "##!^ \x0b", "##!> define \u00a0 \u2003",
 }
 
 type c19Site struct {
